@@ -214,6 +214,22 @@ def steps_for(case, pick):
     elif act == "reduce":
         op = {"op": "reduce", "src": "a", "reducer": a["reducer"], "axis": a["axis"], "mask": a["mask"],
               "keepdims": a["keepdims"]}
+    elif act == "concat":
+        b2 = {"op": "build", "dst": "b", "layout": instantiate(case["aux"], pick), "want": ["type", "valid", "digest"]}
+        op = {"op": "concat0", "src": "b", "others": ["a"], "dst": "r", "want": ["json", "type", "valid"]}
+        return [build, b2, op, {"op": "digest", "src": "a"}]
+    elif act == "samevalue":
+        o = a["o"]
+        if o == "simplify":
+            op = {"op": "simplify", "src": "a"}
+        elif o.startswith("astype_"):
+            op = {"op": "numbers_to_type", "src": "a", "name": o[len("astype_"):]}
+        elif o == "project_bytemask":
+            op = {"op": "bytemask", "src": "a"}
+        elif o == "toListOffsetArray64":
+            op = {"op": "toListOffsetArray64", "src": "a", "start_at_zero": pick([0, 1])}
+        else:
+            op = {"op": o, "src": "a"}
     elif act == "comb":
         op = {"op": "combinations", "src": "a", "axis": a["axis"], "n": a["n"], "replacement": a["repl"]}
     else:
@@ -261,10 +277,19 @@ def judge(case, res):
         if not values_equal(got, vjson_to_py(case["exp"]["v"])):
             return "to_list differs: library %s" % b["json"]
         return None
-    if len(res) < 2:
+    opi = 2 if act == "concat" else 1
+    if len(res) <= opi:
         return "missing op result"
-    r = res[1]
+    r = res[opi]
+    if act == "concat":
+        b2 = res[1]
+        if b2.get("ok") != 1 or b2.get("valid", "") != "":
+            return "aux build failed/invalid: %r" % (b2.get("msg") or b2.get("valid"))
+        if b2.get("type") != case.get("auxty"):
+            return "type of aux layout: spec %r, library %r" % (case.get("auxty"), b2.get("type"))
     if r.get("ok") == -1:
+        if act == "samevalue" and ("not a" in r.get("harness", "") or "wrong class" in r.get("harness", "") or "not an" in r.get("harness", "")):
+            return None      # conversion not defined for this node class
         return "harness: " + r.get("harness", "")
     exp = case["exp"]
     if exp["ok"] == 3:
@@ -298,8 +323,10 @@ def judge(case, res):
                 return "result fails validity: %r" % r.get("valid")
             if "ty" in exp and r.get("type") != exp["ty"]:
                 return "result type: spec %r, library %r" % (exp["ty"], r.get("type"))
-    if len(res) >= 3 and res[2].get("ok") == 1 and "digest" in res[2]:
-        if res[2]["digest"] != b.get("digest"):
+    if exp.get("sametype") == 1 and r.get("ok") == 1 and str(r.get("type", "")).startswith("union["):
+        return "identical types must merge into one type, not a union: %r + %r -> %r" % (case.get("auxty"), case["fromty"], r.get("type"))
+    if len(res) >= opi + 2 and res[opi + 1].get("ok") == 1 and "digest" in res[opi + 1]:
+        if res[opi + 1]["digest"] != b.get("digest"):
             return "input buffers modified by the operation"
     return None
 
@@ -448,3 +475,31 @@ def replay_cases(worker, cases, seed=0, jobs=16, chunk=1500, env=None,
                 fails.extend(fl[:max_fail_keep - len(fails)])
     total["failed"] = nfail
     return total, fails
+
+
+def judge_closure(case, res):
+    """C11 closure: whatever the operation returns for a valid input must itself pass the validity check
+    (value agreement is the business of the other properties and is not judged here)."""
+    act = case["act"]
+    if not res:
+        return "no result"
+    b = res[0]
+    if b.get("ok") != 1:
+        return "build failed: %s" % (b.get("msg") or b.get("harness"))
+    if b.get("valid", "") != "":
+        return "valid layout reported invalid: %r" % b.get("valid")
+    opi = 2 if act == "concat" else 1
+    if len(res) <= opi:
+        return None
+    r = res[opi]
+    if r.get("ok") != 1:
+        if r.get("ok") == 0 and r.get("exc") not in ("ValueError", "RuntimeError"):
+            return "not an ordinary exception: %s" % r.get("exc")
+        return None
+    if not r.get("scalar") and r.get("valid", "") != "":
+        return "result fails validity: %r" % r.get("valid")
+    if "valid_exc" in r:
+        return "validityerror raised on a result: " + r["valid_exc"]
+    if "json_exc" in r:
+        return "result cannot be read (tojson raised): " + r["json_exc"]
+    return None
